@@ -190,6 +190,7 @@ func runOne(seed uint64, n int, out *bufio.Writer, long bool) {
 	must(h.OpenInstance("twin", g.Wrap))
 	d = hist.NewDrive(h, g)
 	h.IEmit("S start")
+	h.Detached = nil // transactions reorganised away in instance 1 may pay addresses a restore cannot discover
 	var v *hist.WInfo
 	if r.Chance(60) {
 		// a wallet created in this instance (ready from the start); numbered after those of instance 1
@@ -228,6 +229,9 @@ func runOne(seed uint64, n int, out *bufio.Writer, long bool) {
 	first := true
 	moves := 0
 	between := func(kind string, step int, status string) string {
+		if kind != "import" {
+			return ""
+		}
 		if first {
 			first = false
 			h.Listing(twin)
@@ -390,7 +394,19 @@ func scenario(k int, out *bufio.Writer) {
 	must(err)
 	h.AdoptWallet(twin)
 	var tip *massutil.Block
+	fails := 0
 	st, ok := d.RunImport(twin, func(kind string, step int, status string) string {
+		if kind == "import-failed" {
+			// the batch met the spend of a coin it never imported. As found, the worker dropped the
+			// task here; repaired, it retries: after the second failure the announcement arrives
+			fails++
+			if fails == 2 {
+				h.Listing(twin)
+				h.Use(twin)
+				d.Announce(tip)
+			}
+			return ""
+		}
 		if tip != nil {
 			return ""
 		}
@@ -423,23 +439,24 @@ func scenario(k int, out *bufio.Writer) {
 	h.IEmit("C import-ended %s %v", st, ok)
 	d.G.Disarm()
 	d.G.Release()
-	// the announcement arrives now; the wallet follows the reorg, the cursor is pulled back, but
-	// nobody runs the import any more
-	h.Process(tip)
-	time.Sleep(300 * time.Millisecond)
+	if d.Pend == nil && tip != nil && h.W.H.VerifBest().Hash != *tip.Hash() {
+		h.Process(tip) // (code as found: the task was dropped before the announcement was delivered)
+	}
+	d.Settle()
+	time.Sleep(100 * time.Millisecond)
 	h.Listing(twin)
 	h.Use(twin)
 	if s := h.StatusOf(twin.ID); s != "ready" {
 		h.IEmit("V import-abandoned wallet %d stays %s after the node reorganised under a running rescan", twin.Num, s)
+		// a restart resumes the import from the status row
+		h.CloseInstance()
+		g2, res := d.Reopen("twin")
+		h.IEmit("R restart %s", res)
+		d.G = g2
+		st, ok = d.RunImport(twin, nil, 5*time.Second)
+		h.IEmit("C import-after-restart %s %v", st, ok)
+		d.Settle()
 	}
-	// a restart resumes the import from the status row
-	h.CloseInstance()
-	g2, res := d.Reopen("twin")
-	h.IEmit("R restart %s", res)
-	d.G = g2
-	st, ok = d.RunImport(twin, nil, 5*time.Second)
-	h.IEmit("C import-after-restart %s %v", st, ok)
-	d.Settle()
 	h.Listing(twin)
 	h.Query()
 }
